@@ -46,6 +46,30 @@ def worker_init(lane):
     Classifier.classify = core.observe(post, pre)(Classifier.classify)
 
 
+def priming_structures(rng):
+    """1-2 imperfect surfaces / 2D materials (adsorbate, vacancy, substitution) of 28-70 atoms."""
+    from ase.build import bcc100, fcc100, fcc111, mx2, add_adsorbate
+    out = []
+    for _ in range(int(rng.integers(1, 3))):
+        k = int(rng.integers(4))
+        if k == 0:
+            a = bcc100("Fe", (3, 3, 3), vacuum=8.0)
+            add_adsorbate(a, "O", 1.6, "ontop")
+        elif k == 1:
+            a = fcc100("Al", (4, 4, 4), vacuum=8.0)
+            a[int(rng.integers(len(a)))].symbol = "Mg"
+        elif k == 2:
+            a = fcc111("Cu", (4, 4, 3), vacuum=8.0, orthogonal=False)
+            del a[int(rng.integers(len(a)))]
+        else:
+            a = mx2("MoS2", size=(4, 4, 1), vacuum=8.0)
+            idx = [i for i, z in enumerate(a.get_atomic_numbers()) if z == 16]
+            a[idx[int(rng.integers(len(idx)))]].symbol = "Se"
+        a.set_pbc([True, True, bool(rng.random() < 0.5)])
+        out.append(a)
+    return out
+
+
 def run_case(case):
     import matid
     rng = np.random.default_rng(case["seed"])
@@ -68,6 +92,17 @@ def run_case(case):
     cname = None
     try:
         clf = matid.Classifier(**kw)
+        if rng.random() < 0.4:
+            # history: the same Classifier object classified other (imperfect two-dimensional) structures before;
+            # the answer for the target must be that of a fresh object (judged by the postcondition below, whose
+            # `repeat` reference always comes from a fresh Classifier)
+            with core.suspend():
+                for prim in priming_structures(rng):
+                    try:
+                        clf.classify(prim)
+                    except Exception:
+                        pass
+            rec.note("classifier_reused_after_other_structures")
         _state["last"] = None
         try:
             res = clf.classify(atoms)
@@ -108,6 +143,6 @@ def run_case(case):
     out["info"] = {"key": "%s|%s|%s|%d|%s" % (meta["family"], meta["pbc"], meta["cell_mode"], len(atoms) // 25, cname),
                    "nontrivial": bool(ind and len(atoms) >= 2),
                    "classes": {"family": meta["family"], "pbc": meta["pbc"], "cell_mode": meta["cell_mode"], "class": cname,
-                               "positions_mode": meta["positions_mode"]}}
+                               "positions_mode": meta["positions_mode"], "order": meta.get("order", "as_built")}}
     out["sample"] = {"family": meta["family"], "pbc": meta["pbc"], "cell_mode": meta["cell_mode"], "natoms": len(atoms), "kwargs": kw, "class": cname}
     return out
